@@ -1,9 +1,10 @@
 """The sample corpus: every message of tests/data/*.bufr and tests/benchmark_data/*.bufr, cut out by an
 R-side scan (start signature + declared total length + stop signature)."""
+from mc import REPO
 import glob
 import os
 
-TESTS = '/repo/tests'
+TESTS = os.path.join(REPO, 'tests')
 SKIP_FILES = {'prepbufr.bufr',            # needs in-stream table definitions (C20)
               'multi_invalid_messages.bufr'}   # deliberately damaged (C12)
 
